@@ -286,6 +286,14 @@ def gen_c10(rng: random.Random, stalls: bool = False) -> dict:
         big = [{"do": "send", "msgs": [["CameraImageRequest", {"single": True}], ["VoiceAssistantAudio", {"data": {"gen": [40000, 7]}}]]}, {"do": "sleep", "d": K * 0.4}]
         actors.append({"id": "flood", "at": {"on": "state", "match": {"new": "CONNECTED"}, "delay": t_dead + 0.01}, "steps": big * 12})
         end = max(end, t_dead + 14 * K + 5.0)
+    if rng.random() < 0.15:
+        # the application issues requests the device never answers; they time out at all sorts of offsets from the ticks -
+        # a request (or its timeout) is no sign of life of the peer and no reason to doubt one that has just been heard
+        device.setdefault("replies", {})["SubscribeLogsRequest"] = ["silent"]
+        rsteps: list = []
+        for _ in range(rng.randint(1, 6)):
+            rsteps += [{"do": "sleep", "d": K * pick(rng, [0.1, 0.4, 0.9, 1.3, 2.6])}, {"do": "request", "msgs": [["SubscribeLogsRequest", {}]], "types": ["SubscribeLogsResponse"], "stop": {"p": "never"}, "timeout": K * pick(rng, [0.05, 0.3, 0.55, 0.8, 1.2])}]
+        actors.append({"id": "req", "at": {"on": "state", "match": {"new": "CONNECTED"}, "delay": 0.0}, "steps": rsteps})
     if rng.random() < 0.25:
         # the application keeps writing fire-and-forget commands: outgoing traffic is no sign of life of the peer
         x = K * pick(rng, [0.3, 0.5, 0.9, 1.7])
